@@ -376,7 +376,7 @@ class ExprMixin:
             if taken == is_and:
                 out += self.boolop_fork(vs[1:], is_and, s2, k)
             else:
-                out += k(s2, v)
+                out += k(s2, v.inner if (taken and isinstance(v, VOpt)) else v)     # a truthy Optional is its value
         return out
 
     def boolop_seq(self, nodes, is_and, st, k):
@@ -388,7 +388,7 @@ class ExprMixin:
                 if taken == is_and:
                     out += self.boolop_seq(nodes[1:], is_and, s2, k)
                 else:
-                    out += k(s2, v)
+                    out += k(s2, v.inner if (taken and isinstance(v, VOpt)) else v)
             return out
         return self.ev(nodes[0], st, after)
 
